@@ -26,9 +26,24 @@ static int parse_header(const u8* f, size_t n, hdrinfo_t* h) {
 }
 
 /* all decoders on one (possibly damaged) input; returns number that reported success; *sz = size returned by a successful one-shot */
+/* decoder contexts that are nominally at their defaults: 0 fresh; 1 checksum verification was switched off, a frame decoded, then a full reset;
+ * 2 switched off, then a parameter reset only; 3 a static context that went through 1 */
+static int g_ctxKind; static u8 g_okFrame[64]; static size_t g_okLen; static void* g_staticD; static size_t g_staticDSize;
+static ZSTD_DCtx* make_dctx(void) {
+    ZSTD_DCtx* d;
+    if (g_ctxKind == 3) { if (!g_staticD) { g_staticDSize = ZSTD_estimateDStreamSize((size_t)1 << 21); g_staticD = malloc(g_staticDSize); } d = ZSTD_initStaticDCtx(g_staticD, g_staticDSize); } else d = ZSTD_createDCtx();
+    if (g_ctxKind && d) {
+        if (!g_okLen) g_okLen = ZSTD_compress(g_okFrame, sizeof g_okFrame, "checksum", 8, 1);
+        ZSTD_DCtx_setParameter(d, ZSTD_d_forceIgnoreChecksum, ZSTD_d_ignoreChecksum);
+        if (g_ctxKind != 2) { u8 o[16]; ZSTD_decompressDCtx(d, o, sizeof o, g_okFrame, g_okLen); }
+        ZSTD_DCtx_reset(d, g_ctxKind == 2 ? ZSTD_reset_parameters : ZSTD_reset_session_and_parameters);
+    }
+    return d;
+}
+static void free_dctx(ZSTD_DCtx* d) { if (g_ctxKind != 3) ZSTD_freeDCtx(d); }
 static int decode_all(const rec_t* r, const u8* in, size_t n, size_t* oneShot, int* streamZero) {
     int ok = 0; size_t ret;
-    ZSTD_DCtx* d = ZSTD_createDCtx();
+    ZSTD_DCtx* d = make_dctx();
     ret = r->dlen ? ZSTD_decompress_usingDict(d, g_obuf, g_ample, in, n, r->dict, r->dlen) : ZSTD_decompressDCtx(d, g_obuf, g_ample, in, n);
     *oneShot = ret; if (!ZSTD_isError(ret)) ok++;
     /* streaming, whole and byte-by-byte: "0" must not be the last word on a proper prefix */
@@ -45,7 +60,7 @@ static int decode_all(const rec_t* r, const u8* in, size_t n, size_t* oneShot, i
         }
         if (!err && last == 0 && pos == n) *streamZero |= 1 << mode;
     }
-    ZSTD_freeDCtx(d);
+    free_dctx(d);
     return ok;
 }
 
@@ -95,9 +110,13 @@ static void body(void) {
         if (h.checksum) {
             for (int bit = 0; bit < 32; bit++) {
                 memcpy(g_mut, r->frame, r->flen); g_mut[en - 4 + bit / 8] ^= (u8)(1u << (bit % 8));
-                decode_all(r, g_mut, r->flen, &one, &sz); nflip++;
-                if (!ZSTD_isError(one)) { vx_fail("decode succeeds with bit %d of the stored checksum flipped", bit); return; }
-                if (sz) { vx_fail("streaming decode reports completion with bit %d of the stored checksum flipped", bit); return; }
+                for (g_ctxKind = 0; g_ctxKind < 4; g_ctxKind++) {
+                    if (g_ctxKind == 3 && r->clen > (1u << 20)) continue;
+                    decode_all(r, g_mut, r->flen, &one, &sz); nflip++;
+                    if (!ZSTD_isError(one)) { vx_fail("decode succeeds with bit %d of the stored checksum flipped (decoder context kind %d)", bit, g_ctxKind); g_ctxKind = 0; return; }
+                    if (sz) { vx_fail("streaming decode reports completion with bit %d of the stored checksum flipped (decoder context kind %d)", bit, g_ctxKind); g_ctxKind = 0; return; }
+                }
+                g_ctxKind = 0;
             }
         }
         if (h.fcsBytes) {
